@@ -6,6 +6,7 @@ import random
 
 PID = "C19"
 LEVEL = "exploration"
+STRICT_WORKER_DEATH = True  # a crash of the worker is an observation about this property
 RULE = (
     "a case is one complete schedule of 2..4 real threads running the real _enter_z3 / _exit_z3 / condom-wrapped "
     "callables of claripy.backends.backend_z3 under the deterministic line-level scheduler M-sched (sys.monitoring "
